@@ -9,7 +9,9 @@ import (
 
 	"harness/t/do2"
 	"harness/t/do3"
+	"harness/t/do3s"
 	"harness/t/do4"
+	"harness/t/do4s"
 )
 
 // doPlan is the drawn configuration of one C20 run.
@@ -154,6 +156,29 @@ func init() {
 		r.checkReturn(s, err)
 		if a != 11 || b != (do3.S{A: 5, B: "x"}) || len(c) != 3 || c[0] != 1 || c[2] != 3 {
 			s.Fail("wrong-value", fmt.Sprintf("got (%v,%v,%v)", a, b, c))
+		}
+	})
+	reg("do-3-same-type", 3, func(r *doRun, s *Sim) {
+		a, b, c, err := do3s.Do(
+			func() (int, error) { e := r.body(0); return 10, e },
+			func() (int, error) { e := r.body(1); return 20, e },
+			func() (int, error) { e := r.body(2); return 30, e },
+		)
+		r.checkReturn(s, err)
+		if a != 10 || b != 20 || c != 30 {
+			s.Fail("wrong-value", fmt.Sprintf("got (%v,%v,%v), want (10,20,30)", a, b, c))
+		}
+	})
+	reg("do-4-same-type", 4, func(r *doRun, s *Sim) {
+		a, b, c, d, err := do4s.Do(
+			func() (string, error) { e := r.body(0); return "a", e },
+			func() (string, error) { e := r.body(1); return "b", e },
+			func() (string, error) { e := r.body(2); return "c", e },
+			func() (string, error) { e := r.body(3); return "d", e },
+		)
+		r.checkReturn(s, err)
+		if a != "a" || b != "b" || c != "c" || d != "d" {
+			s.Fail("wrong-value", fmt.Sprintf("got (%v,%v,%v,%v), want (a,b,c,d)", a, b, c, d))
 		}
 	})
 	reg("do-4", 4, func(r *doRun, s *Sim) {
